@@ -32,7 +32,10 @@ pub fn profile_short() -> &'static str {
 /// harness) cannot leak from one run into the next: a run is a function of its scenario alone, which is
 /// what makes a replay in a fresh process agree with the run that found the violation.
 pub fn exec_hermetic(prop: &dyn Prop, sc: &Scenario) -> crate::props::RunOut {
-    std::thread::scope(|s| match s.spawn(|| prop.execute(sc)).join() {
+    std::thread::scope(|s| match s.spawn(|| {
+        crate::engine::arm_deadline();
+        prop.execute(sc)
+    }).join() {
         Ok(o) => o,
         Err(_) => {
             eprintln!("HARNESS ERROR: scenario thread panicked");
@@ -215,6 +218,8 @@ pub fn run(prop: &dyn Prop, o: &Opts) -> i32 {
     let end = o.from + total;
     let accs: Mutex<Vec<Acc>> = Mutex::new(vec![]);
     let workers = o.workers.max(1);
+    let batch_budget_s: u64 = std::env::var("VERIF_BATCH_BUDGET_S").ok().and_then(|s| s.parse().ok()).unwrap_or(if o.tier == Tier::Quick { 900 } else { 4 * 3600 });
+    let truncated = std::sync::atomic::AtomicBool::new(false);
     let dump_hashes = o.dump_hashes.is_some();
     let hermetic = prop.hermetic();
     let slow_ms: u64 = std::env::var("VERIF_SLOW_MS").ok().and_then(|s| s.parse().ok()).unwrap_or(0);
@@ -223,6 +228,11 @@ pub fn run(prop: &dyn Prop, o: &Opts) -> i32 {
             s.spawn(|| {
                 let mut a = Acc::default();
                 loop {
+                    // batch wall-clock guard: only ever reached when a changed library makes runs pathologically slow
+                    if t0.elapsed().as_secs() > batch_budget_s {
+                        truncated.store(true, Ordering::Relaxed);
+                        break;
+                    }
                     let i = next.fetch_add(1, Ordering::Relaxed);
                     if i >= end {
                         break;
@@ -230,7 +240,12 @@ pub fn run(prop: &dyn Prop, o: &Opts) -> i32 {
                     let mut rng = Rng::new(run_seed(o.seed, prop.id(), i));
                     let sc = prop.generate(i, &mut rng, o.tier);
                     let t_run = Instant::now();
-                    let mut out = if hermetic { exec_hermetic(prop, &sc) } else { prop.execute(&sc) };
+                    let mut out = if hermetic {
+                        exec_hermetic(prop, &sc)
+                    } else {
+                        crate::engine::arm_deadline();
+                        prop.execute(&sc)
+                    };
                     if !hermetic {
                         if let Some(v) = &out.violation {
                             // confirm on a fresh thread: a violation that needs state left behind by earlier runs on
@@ -477,6 +492,7 @@ pub fn run(prop: &dyn Prop, o: &Opts) -> i32 {
         "skipped": skipped,
         "counters": other,
         "unreached_probes": unreached,
+        "batch_truncated_by_wall_clock_budget": truncated.load(Ordering::Relaxed),
         "violating_runs": m.viol.len(),
         "violation_groups": groups.len(),
         "reported": reported,
@@ -552,6 +568,9 @@ pub fn run(prop: &dyn Prop, o: &Opts) -> i32 {
         );
         if !unreached.is_empty() {
             println!("WARN: reach probes at zero: {:?}", unreached);
+        }
+        if truncated.load(Ordering::Relaxed) {
+            println!("WARN: batch stopped after {} s with {} of {} runs executed (runs were pathologically slow on this tree)", batch_budget_s, m.evals, total);
         }
     }
     if unlisted > 0 {
